@@ -17,9 +17,7 @@ set_option Elab.async false
 namespace KlogV.Regexes
 open KlogV.Rx
 
-theorem hashTag : Tie Gen.rx_klog_HashTagPattern Gen.rx_klog_HashTagPattern_anchors Gen.rx_klog_HashTagPattern_unsupported Expect.hashTag false false := by
-  decide +kernel
-theorem unquotedValue : Tie Gen.rx_klog_unquotedValuePattern Gen.rx_klog_unquotedValuePattern_anchors Gen.rx_klog_unquotedValuePattern_unsupported Expect.unquotedValue true true := by
-  decide +kernel
+theorem hashTag : tied Gen.allRegexes Expect.hashTag false false = true := by decide +kernel
+theorem unquotedValue : tied Gen.allRegexes Expect.unquotedValue true true = true := by decide +kernel
 
 end KlogV.Regexes
